@@ -197,7 +197,9 @@ CLAIMED['C15'] = (
 
 CLAIMED['C04'] = (
     'DESIGN.md 4 C04 / 0a',
-    'Reduced scope. Proof, per box class (mfhd, mehd, trex, tfdt, tfhd with all 2^5 optional-field combinations, trun header, '
+    'Reduced scope. Proof, per box class (mfhd, mehd, trex, tfdt, tfhd with all 2^5 optional-field combinations, trun header and trun '
+    'with a two-entry sample table under all 64 flag combinations (defaults from tfhd, first-sample flags, cumulative offsets), sidx '
+    'with 0-2 bit-packed references, '
     'tenc, mdhd incl. 1904-epoch dates and packed language, emsg v0/v1 with/without payload, pssh with 0-3 key ids, btrt, pasp) '
     'and for all field values legal for the version/flags: every value written fits its field, parsing the produced bytes '
     'returns exactly the written version, flags and fields and consumes them exactly, the encoded size is the specified one; '
